@@ -13,7 +13,7 @@ PROP = {
     ],
 }
 TEXT = {
-    "text": "Server side (ServerList.v): post_server = AuthorizedServersHandlerPOST after JSON decoding, validate_migration/post_migration; theorems for EVERY sequence of posts from every list and an arbitrary verify: c17_enter_signed, c17_entries_stable (a position keeps its entry or takes a posted, signed, banned record for the same key), c17_ban_monotone (banned entries never change), c17_list_only_grows, c17_migrations_validated. Client side (ClientSync.v): sync_round with apply_sync (merge rule !exists||Banned, or the three file writes then adoption) and client_load; theorems for every history of sync rounds (arbitrary per-attempt outcomes) and restarts from any loaded client: c17_identity_changes_only_by_order (a step keeps GCA and id, keeps or bans entries and admits only GCA-signed new entries -- or the accepted reply carried an order for THIS device key signed by the CURRENT GCA and every new server is signed by the NEW GCA), c17_client_ban_monotone, c17_persist_equals_adopt (restart loads what was adopted, for non-empty lists), plus two refutations kept as findings (empty order K7; banned entry's address rewritten by a later ban record). Tie: suite serverlist (HTTP POST sequences against a real server, GET after each, sync reply after each migration) and suite migrate (scripted servers feeding a real client, restarts through the hook loader and the real NewClient, state accessor + files). Added after seeded-change rounds: forged entries / orders for already known keys, 500 rounds of eight simultaneous announcements of one key, oracle clause that a GCA-signed ban in an accepted list is adopted.",
+    "text": "Server side (ServerList.v): post_server = AuthorizedServersHandlerPOST after JSON decoding, validate_migration/post_migration; theorems for EVERY sequence of posts from every list and an arbitrary verify: c17_enter_signed, c17_entries_stable (a position keeps its entry or takes a posted, signed, banned record for the same key), c17_ban_monotone (banned entries never change), c17_list_only_grows, c17_migrations_validated. Client side (ClientSync.v): sync_round with apply_sync (merge rule !exists||Banned, or the three file writes then adoption) and client_load; theorems for every history of sync rounds (arbitrary per-attempt outcomes) and restarts from any loaded client: c17_identity_changes_only_by_order (a step keeps GCA and id, keeps or bans entries and admits only GCA-signed new entries -- or the accepted reply carried an order for THIS device key signed by the CURRENT GCA and every new server is signed by the NEW GCA), c17_client_ban_monotone, c17_persist_equals_adopt (restart loads what was adopted, for non-empty lists), plus two refutations kept as findings (empty order K7; banned entry's address rewritten by a later ban record). Tie: suite serverlist (HTTP POST sequences against a real server, GET after each, sync reply after each migration) and suite migrate (scripted servers feeding a real client, restarts through the hook loader and the real NewClient, state accessor + files). Added after seeded-change rounds: forged entries / orders for already known keys, 500 rounds of eight simultaneous announcements of one key, oracle clause that a GCA-signed ban in an accepted list is adopted. Round 5: migration orders that re-authorize servers the client already knows and that carry a ban followed by the older entry of the same key; a ban listed in an adopted order must be in the new list; the known finding K7 is tied to orders whose own list is empty.",
     "note": "Trusted: Coq kernel + vm_compute, the harness, secp256k1, encoding/json. KNOWN-FINDING lines are expected for the two recorded findings.",
     "technique": "Coq proof (induction over arbitrary post sequences / client histories, arbitrary verify) + differential correspondence (vm_compute)",
 }
